@@ -4126,3 +4126,38 @@ CONC_QUICK = [
      bounds="9 two-thread programs with one call per thread from the op alphabet; every interleaving of the lock-protected critical sections (context switch before each lock acquisition); data bytes symbolic")
 def c04_quick(ctx, prop):
     return run_concurrent(ctx, prop, CONC_QUICK)
+
+
+CONC_ALPHA = ["append_b_x", "append_b_y", "write_b_x", "write_n_y", "mkdir_de", "mkdir_d", "mkfile_n", "remove_b", "remove_n", "removeall_a",
+              "read_b", "exists_n", "isdir_d", "move_b_c", "setcwd_a", "mkfile_rel", "symlink_l_b", "appendline_b"]
+
+
+def _mk_conc_pairs(k, n):
+    @job("c04_pairs_%d" % k, ["C04", "C12"], "thorough",
+         functions=["Memfs operations (real MIR) under a thread scheduler"],
+         bounds="two-thread programs with one call per thread: chunk %d of %d of all ordered pairs over an 18-operation alphabet; every interleaving of the critical sections" % (k + 1, n))
+    def f(ctx, prop):
+        pairs = [("%s||%s" % (a, b), [[a], [b]]) for a in CONC_ALPHA for b in CONC_ALPHA]
+        return run_concurrent(ctx, prop, pairs[k::n], tag="c04_pairs_%d" % k)
+    return f
+
+
+for _k in range(6):
+    _mk_conc_pairs(_k, 6)
+
+
+@job("c04_two_calls", ["C04", "C12"], "thorough",
+     functions=["Memfs operations (real MIR) under a thread scheduler"],
+     bounds="two-thread programs with two calls in one thread (8 programs); every interleaving of the critical sections")
+def c04_two_calls(ctx, prop):
+    progs = [
+        ("mkfile;append||append", [["mkfile_n", "append_b_x"], ["append_b_y"]]),
+        ("write;read||append", [["write_b_x", "read_b"], ["append_b_y"]]),
+        ("mkdir;mkfile_rel||setcwd", [["mkdir_d", "mkfile_rel"], ["setcwd_a"]]),
+        ("remove;mkfile||exists", [["remove_n", "mkfile_n"], ["exists_n"]]),
+        ("move;append||read", [["move_b_c", "append_b_x"], ["read_b"]]),
+        ("append;append||append", [["append_b_x", "appendline_b"], ["append_b_y"]]),
+        ("symlink;remove||write", [["symlink_l_b", "remove_b"], ["write_b_x"]]),
+        ("removeall;mkdir||mkfile", [["removeall_a", "mkdir_de"], ["mkfile_n"]]),
+    ]
+    return run_concurrent(ctx, prop, progs, tag="c04_two_calls")
